@@ -1200,6 +1200,7 @@ def fresh_message_monitor(case, log, ctx):
     (a `dlv` event in that very step), however far behind the newest message number it is"""
     carried = {}                       # sender -> emission index -> [(mseq, type, digest)]
     seen = {}                          # receiver -> set of message numbers carried by datagrams it accepted
+    tainted = set()
     recvs = [i for i, l in enumerate(case) if l.startswith("recv ")]
     n = -1
     for rec in log:
@@ -1207,7 +1208,12 @@ def fresh_message_monitor(case, log, ctx):
             carried.setdefault(rec["e"], {})[rec["pkt"]["k"]] = rec["pkt"]["msgs"]
         elif rec["op"] == "recv":
             n += 1
-            if rec.get("ret") != "T" or not rec.get("spec", "").startswith("@") or rec.get("muts") or rec.get("rekey"):
+            if rec.get("ret") == "T" and (not rec.get("spec", "").startswith("@") or rec.get("muts") or rec.get("rekey")):
+                # an accepted datagram that is not a plain copy of an emission (re-sealed under the real key by the attacker stream, or
+                # forged towards an unkeyed endpoint): which message numbers it consumed is not known here - the receiver is out of scope
+                tainted.add(rec["e"])
+                continue
+            if rec.get("ret") != "T" or not rec.get("spec", "").startswith("@") or rec["e"] in tainted:
                 continue
             src, kk = rec["spec"][1:].split(":")
             got = set()
